@@ -29,12 +29,12 @@ checks = [
     chk("C01", "exploration",
         "Seeded simulation of legal builder call histories through every front end into a simulated file with benign short writes/Interrupted, "
         "under a per-run node-cache geometry knob (incl. disabled cache, 1-cell cache that evicts on every insert, >=3 columns); what the file durably holds is reopened with the real readers "
-        "and compared entry by entry with an ordered-map model (stream, into_byte_vec, keys, values, len, is_empty) plus the independent CRC oracle; plus streamed families of 1e5 (quick) / 3e6 (thorough) keys, constructed address-delta boundaries (255 .. 2^24+1), worlds around one key of 64 KiB .. 1 MiB (+-1), and maps whose sibling nodes collide in the node cache's documented 64-bit FNV hash.",
+        "and compared entry by entry with an ordered-map model (stream, into_byte_vec, keys, values, len, is_empty) plus the independent CRC oracle; plus streamed families of 1e5 (quick) / 3e6 (thorough) keys, constructed address-delta boundaries (255 .. 2^24+1), worlds around one key of 64 KiB .. 1 MiB (+-1), maps whose sibling nodes collide in the node cache's documented 64-bit FNV hash, and readers dropped half-way (a stream after two items, a bounded range after one, early-exit set relations) before the complete read-back enumeration.",
         TB_A, "deterministic simulation: seeded builder histories x cache-geometry knob x benign sink schedules, ordered-map reference model", "DESIGN.md §5 C01"),
     chk("C06", "exploration",
         "History checking of the stateful builder API against an ordering-contract reference model, call by call (variant and payload of every result), observed together with the sink: "
         "a rejected call must cause zero writer calls and leave bytes_written unchanged; bulk calls must stop pulling at the rejected item; final bytes must equal a clean rebuild of exactly the accepted sequence. "
-        "All histories of length <= 5 (6 thorough) over a 5-key universe are enumerated for 12 front-end variants (map/set/raw single calls, raw add, extend_iter, extend_stream, Set/Map::from_iter, Fst::from_iter_set/map); random histories up to 200 calls with 0-60% illegal calls, 1/16 of them with keys longer than 1 KiB; nine worlds around ONE accepted key of 64 KiB .. 1 MiB (+-1) with the calls that must be refused right after it; from_iter fed by iterators with four size-hint behaviours (nothing, exact, usize::MAX, 'empty').",
+        "All histories of length <= 5 (6 thorough) over a 5-key universe are enumerated for 12 front-end variants (map/set/raw single calls, raw add, extend_iter, extend_stream, Set/Map::from_iter, Fst::from_iter_set/map); random histories up to 200 calls with 0-60% illegal calls, 1/16 of them with keys longer than 1 KiB; nine worlds around ONE accepted key of 64 KiB .. 1 MiB (+-1) with the calls that must be refused right after it; from_iter fed by iterators with four size-hint behaviours (nothing, exact, usize::MAX, 'empty'); in a sixth of the random histories the caller's key source panics inside a bulk call, the panic is caught and the same builder is used further.",
         TB_A, "deterministic simulation: call-history checking against a contract model with sink-event observation; exhaustive small scope + seeded random histories", "DESIGN.md §5 C06"),
     chk("C07", "fault_enumeration",
         "Benign-fault simulation of the io::Write sink: per workload (incl. ones with a 33..256-way node and its 256-byte index) every fixed cap 1..16 and every position of a single short write (1 and len-1 bytes), of a single Interrupted and of a burst of 9/17/33 Interrupted are enumerated; "
@@ -44,7 +44,7 @@ checks = [
     chk("C08", "fault_enumeration",
         "A: every artifact's footer (clean builds, builds through short-writing sinks, one multi-MiB streamed artifact) is compared with an independent bitwise CRC-32C; arbitrary payloads (0..4096 B) are pushed through the real counting writer (hook) with the sink's acceptance schedule as the chunking. "
         "B: at-rest fault enumeration: every byte position x every other value on artifacts <= 160 B (about 8e6 corruptions quick), bursts of 2-4 bytes at every offset, sampled corruptions on larger files and flips of durable bytes while the build runs; "
-        "the trailer replaced by eight values derived from the body (plain CRC, half-applied mask, other byte order, ...), artifacts constructed so that their checksum is a boundary value or one byte away from the plain CRC; artifacts from Default / from_iter entry points; open-then-verify must never return Ok on a corrupted artifact and nothing may panic.",
+        "the trailer replaced by eight values derived from the body (plain CRC, half-applied mask, other byte order, ...), artifacts constructed so that their checksum is a boundary value or one byte away from the plain CRC; artifacts from Default / from_iter entry points; builds whose history contains refused calls and bulk calls that end early; every deep corruption also applied in place to a buffer that verified a moment ago (incl. artifacts of 250-500 KiB); open-then-verify must never return Ok on a corrupted artifact and nothing may panic.",
         TB_A, "deterministic simulation with fault injection: at-rest/in-flight byte corruption enumeration + sink-chunking schedules against an independent CRC-32C", "DESIGN.md §5 C08"),
     chk("C11", "fault_enumeration",
         "Hard-fault enumeration: for each workload and layering (direct / short writes / BufWriter) a dry run measures the sink calls, then every sink call index (writes and flushes) fails with each of 8 ErrorKinds or Ok(0) (flushes also with Interrupted), transient and sticky, the error built in one of four representations per run (text payload, bare kind, errno, a payload that is itself an fst::Error); six multi-MiB builds with one fault far into the output. "
@@ -52,26 +52,26 @@ checks = [
         TB_A + " The simulated caller stops at the first Err(Io).", "deterministic simulation with fault injection: enumeration of the failing sink call x error kind x stickiness x layering", "DESIGN.md §5 C11"),
     chk("C13", "exploration",
         "Streaming builds of 1e4..3e6 (thorough 3e7) keys with bounded fan-out and key length and almost no node sharing (fixed-length keys, prefix pairs, leaf fans of distinct 33..64-way nodes, strictly decreasing values), under a counting global allocator, for sets and maps, several cache geometries and sink acceptance shapes; "
-        "plus bulk calls (one extend_iter / extend_stream over 4e5 items), runs of 150 000 repeats of one key, one uninterrupted run of 1e5 refused inserts half way, sectioned streams (a vocabulary of tails found in the cache again and again, then displaced), keys of 65..1000 bytes, single builders that emit > 64 MiB and > 110 MiB, and a builder handed back and forth between two long-lived threads (heap summed over both); live requested heap is checked against a bound computed from (measured constructor allocation, geometry, fan-out, key length) at every 1000th insert; growth over the last nine tenths is reported. Builder errors in these runs are recorded, not judged (C06/C01/C11 judge them).",
+        "plus bulk calls (one extend_iter / extend_stream over 4e5 items), runs of 150 000 repeats of one key, one uninterrupted run of 1e5 refused inserts half way, sectioned streams (a vocabulary of tails found in the cache again and again, then displaced), keys of 65..1000 bytes, single builders that emit > 64 MiB and > 110 MiB, a builder handed back and forth between two long-lived threads (heap summed over both), and builds that begin with the empty key and/or a bulk call that returns an error half-way; live requested heap is checked against a bound computed from (measured constructor allocation, geometry, fan-out, key length) at every 1000th insert; growth over the last nine tenths is reported. Builder errors in these runs are recorded, not judged (C06/C01/C11 judge them).",
         "Trusted: the counting allocator (requested bytes of the building thread) and the arithmetic bound derived from struct sizes on a 64-bit target. Asymptotic claim checked at finitely many scales.",
         "deterministic simulation: allocator seam (counting global allocator) with invariant checkpoints during streamed builds", "DESIGN.md §5 C13"),
     chk("C14", "exploration",
         "For key families at two sizes (1e3 vs 1e5/1e6; thorough 5e6) the peak requested heap of stream/keys/values/range/search (4 automata)/set operations over k=2,4,8 inputs, mixed stream kinds and tiny/disjoint companion FSTs is measured under the counting allocator; "
-        "operands whose key ranges do not interleave (segments), operands handed over through Extend/FromIterator from a filter iterator, it must stay under a bound in (k, key length) and must not grow with N beyond one doubling step; open + 5000 look-ups on borrowed bytes (also as a version-2 file, also more than 2^20 look-ups on one opened object, also in a fresh process whose first contact with the library is opening bytes another process built) must allocate nothing.",
+        "operands whose key ranges do not interleave (segments), operands handed over through Extend/FromIterator from a filter iterator, 20 000 successor queries and 2 000 small unions dropped early followed by one more complete scan, it must stay under a bound in (k, key length) and must not grow with N beyond one doubling step; open + 5000 look-ups on borrowed bytes (also as a version-2 file, also more than 2^20 look-ups on one opened object, also in a fresh process whose first contact with the library is opening bytes another process built) must allocate nothing.",
         "Trusted: the counting allocator; per-item allocate-and-free is not judged (the property is about heap held).",
         "deterministic simulation: allocator seam (counting global allocator) around traversals at two scales", "DESIGN.md §5 C14"),
     chk("C15", "exploration",
-        "Worlds of 2-6 builder tasks that receive one accepted sequence through different front ends (incl. from_iter/memory entry points and the union-of-parts merge recipe), call groupings, sink schedules and buffer layers, plus disturber tasks (half of them die with an injected I/O error mid-output), interleaved call by call by a seeded scheduler; the empty sequence through every entry point incl. Map/Set::default(); the same sequence before and after 255 .. 65 536 other builder objects in one thread; "
+        "Worlds of 2-6 builder tasks that receive one accepted sequence through different front ends (incl. from_iter/memory entry points and the union-of-parts merge recipe), call groupings, sink schedules and buffer layers, plus disturber tasks (they die with an injected I/O error mid-output, are dropped without finish, or their writer panics inside write()), same-sequence tasks whose writer re-enters the library inside write() or whose key source panics inside a bulk call, interleaved call by call by a seeded scheduler; the empty sequence through every entry point incl. Map/Set::default(); the same sequence before and after 255 .. 65 536 other builder objects in one thread; "
         "all outputs must be byte-identical. The same run indices are re-executed in separate processes at several worker counts and per-index digests compared (processes clause). Threads clause: Engine C compiles an instrumented copy of the library (std sync primitives mapped to shuttle) and lets 2-4 simulated threads build the same sequence through different entry points as the first thing in a fresh process, then warm, under seeded schedules.",
         TB_A + " Interleaving is at public-call granularity (the library has no shared mutable state).",
         "deterministic simulation: seeded call-level scheduler over multiple builder tasks + cross-process re-execution", "DESIGN.md §5 C15"),
     chk("C20", "fault_enumeration",
         "Crash-restart simulation: a build is cut at every sink event (durable prefix, torn in-flight write of several lengths, lost BufWriter buffer); survivors, corrupted artifacts, boundary header/footer strings (root address/len/version boundary values, lengths 0..64), bytes whose checksum was recomputed over garbage, and random strings are reopened "
-        "through Fst/Map/Set::new over &[u8], Vec and Cow, then every metadata accessor, verify and map_data (also with a closure that returns other bytes) run under catch_unwind with overflow checks on. Also 464 openable files of round sizes (2^k+d, k=12..23; m MiB+d) with wrong and recomputed checksum, one artifact above 1 MiB with every footer field at boundary values, node-shaped garbage; files of 4 MiB and more are also opened and verified in child processes on a 256 KiB-stack thread and with the address space capped (failing allocation / thread creation as the injected fault). The 'no unsafe code' clause is a compile of the library with -F unsafe_code in both profiles (debug and --release, with the levenshtein feature) plus a token scan of src/**/*.rs for the keyword (all cfg branches and macro bodies); a lint, reported as such.",
+        "through Fst/Map/Set::new over &[u8], Vec and Cow, then every metadata accessor, verify and map_data (also with a closure that returns other bytes) run under catch_unwind with overflow checks on. Also 464 openable files of round sizes (2^k+d, k=12..23; m MiB+d) with wrong and recomputed checksum, one artifact above 1 MiB with every footer field at boundary values, node-shaped garbage; files of 4 MiB and more are also opened and verified in child processes on a 256 KiB-stack thread, with the address space capped (failing allocation / thread creation as the injected fault), and by four threads sharing one opened Fst. The 'no unsafe code' clause is a compile of the library with -F unsafe_code in both profiles (debug and --release, with the levenshtein feature) plus a token scan of src/**/*.rs for the keyword (all cfg branches and macro bodies); a lint, reported as such.",
         TB_A + " Queries on garbage are deliberately not called (the property allows them to panic).",
         "deterministic simulation with fault injection: crash at every sink event + at-rest corruption, restart through the real open/verify path; plus a compile-time unsafe lint", "DESIGN.md §5 C20"),
     chk("C19", "exploration",
-        "The real fst-bin map/set commands (argument parsing, Merger, batcher, Sorters, KvBatch, UnionBatch, temp files, mmap) run under a seeded scheduler that owns every thread spawn and channel operation; inputs (incl. the empty key, files without trailing newline, CR at EOF, empty files, the same file listed twice, FIFOs instead of regular files, CRLF line ends, values with leading zeros and above 2^53, a stale longer file at the output path) x batch size x fd limit x threads x merge mode x schedule are sampled; a fault-injecting configuration starves file descriptors from a chosen batch on (the command may fail, it must not report success with a wrong result). "
+        "The real fst-bin map/set commands (argument parsing, Merger, batcher, Sorters, KvBatch, UnionBatch, temp files, mmap) run under a seeded scheduler that owns every thread spawn and channel operation; inputs (incl. the empty key, files without trailing newline, CR at EOF, empty files, the same file listed twice, FIFOs instead of regular files, CRLF line ends, keys with NUL / control bytes / invalid UTF-8 (set) or multi-byte UTF-8 (map), lines longer than 8 KiB and 64 KiB, values with leading zeros and above 2^53, a stale longer file at the output path) x --keep-tmp-dir x temporary directory on another file system x batch size x fd limit x threads x merge mode x schedule are sampled; a fault-injecting configuration starves file descriptors from a chosen batch on (the command may fail, it must not report success with a wrong result). "
         "Oracles: command returns Ok, output verifies, content equals a multiset-merge model, bytes equal a sorted library build when keys do not repeat, and all outputs for one input and mode are byte-identical across configurations and schedules; no deadlock, bounded steps.",
         "Trusted: shuttle 0.9.3 as coroutine runtime; our bounded-channel shim standing in for crossbeam-channel (rendezvous, capacity 1, disconnect semantics); the multiset-merge model. Real: fst-bin app.rs, cmd/map.rs, cmd/set.rs, merge.rs, util.rs, the fst library, the filesystem (tmpfs), memmap2.",
         "deterministic simulation: seeded thread scheduler (shuttle runtime, own Scheduler) over the real CLI merge pipeline x configuration knobs", "DESIGN.md §5 C19", engine="binsim"),
